@@ -28,7 +28,7 @@ Lemma fun_fails f fd cf : compile_fun cfg fd = COk cf -> good cf -> fun_ok fd = 
   fails cfg funcs nat_fun (mkstate (enter cfg (link cf) B IB) B IB vl K) w.
 Proof.
   intros Hcf Hgood Hok args sto0 w Hbp Hexec O IO vl K B IB.
-  unfold fun_ok in Hok. apply andb_prop in Hok as [Hok Hrets]. apply andb_prop in Hok as [Hsafe Hnd]. apply nodup_names_NoDup in Hnd.
+  unfold fun_ok in Hok. apply andb_prop in Hok as [Hok Hrets]. apply andb_prop in Hok as [Hsafe Hnd]. apply nodup_nonblank_NoDupNB in Hnd.
   unfold rets_ok_fun in Hrets. apply andb_prop in Hrets as [Hnovoid Hrets].
   unfold compile_fun in Hcf.
   cinv Hcf. rename a into rt. destruct (negb (supported rt)); [discriminate|].
@@ -39,13 +39,13 @@ Proof.
   set (cf := mkcfunc C (cs_consts st) (cs_iconsts st) nobj nint) in *.
   set (fn := link cf).
   destruct (split_bind _ _ _ _ _ _ _ _ _ _ _ _ [] [] Hcfba Hbp Hnd) as (Hno & Hni & Hop & Hip);
-    try reflexivity; try (intros x i Hx; discriminate). { intros x _. auto. }
+    try reflexivity; try (intros x i _ Hx; discriminate). { intros x _ _. auto. }
   cbn [app] in Hno, Hni, Hop, Hip.
   assert (Hpar : params_ok env B IB (len O) (len IO) sto0).
   { split.
-    - intros x i Hx. destruct (Hop _ _ Hx) as (v & Hs & Hnv & Hn & Hr). exists v. split; [exact Hs|]. split; [exact Hnv|].
+    - intros x i Hxb Hx. destruct (Hop _ _ Hxb Hx) as (v & Hs & Hnv & Hn & Hr). exists v. split; [exact Hs|]. split; [exact Hnv|].
       subst B. rewrite nth_bottom_rev_args by exact Hr. split; [exact Hn|]. rewrite len_app', len_rev. pose proof (len_nonneg' O). lia.
-    - intros x i _ Hx. destruct (Hip _ _ Hx) as (z & Hs & Hn & Hr). exists z. split; [exact Hs|].
+    - intros x i Hxb _ Hx. destruct (Hip _ _ Hxb Hx) as (z & Hs & Hn & Hr). exists z. split; [exact Hs|].
       subst IB. rewrite nth_bottom_rev_args by exact Hr. split; [exact Hn|]. rewrite len_app', len_rev. pose proof (len_nonneg' IO). lia. }
   assert (Hlwf : lwf cfg env st).
   { eapply rblock_lwf; [apply Forall_forall; intros; apply rstmt_lwf|exact Hcfbba|]. split; [exact Hmax|intros x i Hx; discriminate]. }
@@ -142,14 +142,14 @@ Proof.
   - pose proof Hcf as Hcf2. unfold compile_fun in Hcf2.
     cinv Hcf2. destruct (negb (supported a)); [discriminate|]. cinv Hcf2b. destruct a0 as [[[op ip] nobj] nint]. destruct ((256 <? nobj) || (256 <? nint)); [discriminate|]. cinv Hcf2bb. destruct a0 as [st rb].
     destruct (negb (jumps_fit _)); [discriminate|]. rewrite (lk_nobj _ _ Hlink). inversion Hcf2bbb; subst cf. cbn [cf_nobj].
-    unfold fun_ok in Hok. apply andb_prop in Hok as [Hok _]. apply andb_prop in Hok as [_ Hnd]. apply nodup_names_NoDup in Hnd.
-    destruct (split_bind _ _ _ _ _ _ _ _ _ _ _ _ [] [] Hcf2ba Ebp Hnd) as (Hno & _); try reflexivity; try (intros x i Hx; discriminate). { intros x _. auto. }
+    unfold fun_ok in Hok. apply andb_prop in Hok as [Hok _]. apply andb_prop in Hok as [_ Hnd]. apply nodup_nonblank_NoDupNB in Hnd.
+    destruct (split_bind _ _ _ _ _ _ _ _ _ _ _ _ [] [] Hcf2ba Ebp Hnd) as (Hno & _); try reflexivity; try (intros x i _ Hx; discriminate). { intros x _ _. auto. }
     cbn [app] in Hno. rewrite Hno, len_rev. lia.
   - pose proof Hcf as Hcf2. unfold compile_fun in Hcf2.
     cinv Hcf2. destruct (negb (supported a)); [discriminate|]. cinv Hcf2b. destruct a0 as [[[op ip] nobj] nint]. destruct ((256 <? nobj) || (256 <? nint)); [discriminate|]. cinv Hcf2bb. destruct a0 as [st rb].
     destruct (negb (jumps_fit _)); [discriminate|]. rewrite (lk_nint _ _ Hlink). inversion Hcf2bbb; subst cf. cbn [cf_nint].
-    unfold fun_ok in Hok. apply andb_prop in Hok as [Hok _]. apply andb_prop in Hok as [_ Hnd]. apply nodup_names_NoDup in Hnd.
-    destruct (split_bind _ _ _ _ _ _ _ _ _ _ _ _ [] [] Hcf2ba Ebp Hnd) as (_ & Hni & _); try reflexivity; try (intros x i Hx; discriminate). { intros x _. auto. }
+    unfold fun_ok in Hok. apply andb_prop in Hok as [Hok _]. apply andb_prop in Hok as [_ Hnd]. apply nodup_nonblank_NoDupNB in Hnd.
+    destruct (split_bind _ _ _ _ _ _ _ _ _ _ _ _ [] [] Hcf2ba Ebp Hnd) as (_ & Hni & _); try reflexivity; try (intros x i _ Hx; discriminate). { intros x _ _. auto. }
     cbn [app] in Hni. rewrite Hni, len_rev. lia.
 Qed.
 
